@@ -58,9 +58,9 @@ def _roles(ck, fa):
     r["parent_passes"] = []
     if pl is not None:
         head = r["ploops"][0]
-        it, cond = fa.xnorm(pl.iter, head.id), fa.conditions(pl)
+        it, cond = _walked(fa, head), fa.conditions(pl)
         for n in _for_nodes(fa):
-            if n.ast is pl or (fa.xnorm(n.ast.iter, n.id) == it and fa.conditions(n.ast) == cond and not fa.inside(n.ast, pl)):
+            if n.ast is pl or (_walked(fa, n) == it and fa.conditions(n.ast) == cond and not fa.inside(n.ast, pl)):
                 r["parent_passes"].append(n)
     r["PDS"] = None
     for n in r["parent_passes"]:
@@ -72,12 +72,15 @@ def _roles(ck, fa):
 
 def _loop_vars(loop):
     """(name of the mapping a loop walks, text of the key of the entry at hand, text of the entry) for
-    `for k, v in m.items()` / `for k in m` / `for k in m.keys()`; (None, None, None) for another shape."""
-    it = loop.iter
+    `for k, v in m.items()` / `for k in m` / `for k in m.keys()` / `for v in m.values()` (no key at hand), under calls
+    that only fix the order of the walk; (None, None, None) for another shape."""
+    it = PM.strip_order(loop.iter)
     if isinstance(loop.target, ast.Tuple) and len(loop.target.elts) == 2:
         idx = A.call_recv(it).id if isinstance(it, ast.Call) and A.call_attr(it) == "items" and isinstance(A.call_recv(it), ast.Name) else None
         return idx, A.norm(loop.target.elts[0]), A.norm(loop.target.elts[1])
     if isinstance(loop.target, ast.Name):
+        if isinstance(it, ast.Call) and A.call_attr(it) == "values" and not it.args and isinstance(A.call_recv(it), ast.Name):
+            return A.call_recv(it).id, None, loop.target.id
         # `for k in parent_index:` / `.keys()`: the entry is parent_index[k]
         if isinstance(it, ast.Call) and A.call_attr(it) == "keys" and not it.args:
             it = A.call_recv(it)
@@ -86,6 +89,15 @@ def _loop_vars(loop):
     if isinstance(it, ast.Call) and A.call_attr(it) == "items" and isinstance(A.call_recv(it), ast.Name):
         return A.call_recv(it).id, None, None
     return None, None, None
+
+
+def _walked(fa, n):
+    """The (expanded) mapping a loop goes over, whichever of items() / values() / keys() / the mapping itself it iterates
+    and in whatever order."""
+    it = PM.strip_order(n.ast.iter)
+    if isinstance(it, ast.Call) and A.call_attr(it) in ("items", "values", "keys") and not it.args and A.call_recv(it) is not None:
+        it = A.call_recv(it)
+    return fa.xnorm(it, n.id)
 
 
 def _pol(lits, *texts):
@@ -498,10 +510,9 @@ def check_overlay(ck, R):
     ck.ob(R, fa.key(pl.ast, "parent-referenced"), okr, "inherited objects are referenced in the target data source" if okr else
           "inherited objects are not referenced from the parent's data source", fa.where(pl.ast))
     # own keys
-    it = ol.ast.iter
-    while isinstance(it, ast.Call) and isinstance(it.func, ast.Name) and it.func.id in ("list", "sorted", "tuple") and len(it.args) == 1 and not it.keywords:
-        it = it.args[0]
-    okk = fa.xnorm(it, ol.id) in ("obj.list_keys(_include_merge_parent=False)", "obj.list_keys(False)")
+    # (under calls that only copy / order the listing, wherever they are applied)
+    it = PM.strip_order(PM._strip_casts(fa.expand(PM.strip_order(ol.ast.iter), ol.id)))
+    okk = A.norm(it) in ("obj.list_keys(_include_merge_parent=False)", "obj.list_keys(False)")
     ck.ob(R, fa.key(None, "own-keys-only"), okk, "only the partition's own keys are re-stored" if okk else
           "own keys are not taken from obj.list_keys(_include_merge_parent=False): parent data is re-stored or own keys are missed", fa.where())
     LK = A.norm(ol.ast.target)
@@ -515,6 +526,15 @@ def check_overlay(ck, R):
             and ent.get("content_key", "").startswith("self._codec.store(%s, data_source, " % TYP) and A.norm(ost[0].targets[0].slice) == LK
     ck.ob(R, fa.key(ol.ast, "own-entries"), okoe, "own entries are recorded under their key with from_parent=False" if okoe else
           "own entries are not recorded as (result_type, stored key, from_parent=False) under their own key", fa.where(ol.ast))
+    # every own key is layered on top: no iteration of the own loop starts the next one or leaves the loop before the
+    # entry is put into the index (skipping a key the parent also has lets the parent's entry win)
+    if ost:
+        starts = [d for (d, l) in cfg.succ[ol.id] if l == "T"]
+        live = cfg.reach(starts, removed=fa.nodes(ost[0]), edge_ok=lambda a, b, l: l != "exc")
+        okeach = ol.id not in live and cfg.exit not in live and all(cfg.node(i).ast is None or fa.inside(cfg.node(i).ast, ol.ast) for i in live)
+        ck.ob(R, fa.key(ol.ast, "every-own-key"), okeach, "every own key is stored and entered into the merged index" if okeach else
+              "an iteration of the own-keys loop can skip `index[k] = ...` (continue / early exit): for such a key the parent's entry, if any, is "
+              "what the stored partition answers with -- own keys no longer win", fa.where(ol.ast))
     # value stored is the value classified: fetched once per key, classified, stored under that type
     gets = [c for c in A.calls_in(ol.ast) if A.call_attr(c) == "get" and A.norm(A.call_recv(c)) == "obj"]
     st = [c for c in A.calls_in(ol.ast) if A.call_attr(c) == "store"]
@@ -537,8 +557,11 @@ def check_overlay(ck, R):
 class _Filt:
     """A comprehension filter over an own map: the `if`s, the key variable, the value variable (or None)."""
 
-    def __init__(self, ifs, keyvar, valvar, field):
+    def __init__(self, ifs, keyvar, valvar, field, comp=None, unpacked=None):
         self.ifs, self.keyvar, self.valvar, self.field = ifs, keyvar, valvar, field
+        # the comprehension itself (its filter may mention locals of the function) and, when the entry is taken apart
+        # in the target (`for k, (t, c, inherited) in m.items()`), {name: position of the field it is bound to}
+        self.comp, self.unpacked = comp, unpacked or {}
 
     def __repr__(self):
         return "if " + " and ".join(A.norm(i) for i in self.ifs)
@@ -583,6 +606,18 @@ def _kv(e, env):
                 full = not args or (len(args) == 1 and isinstance(args[0], ast.Constant) and args[0].value is True)
                 return _one(("parent",) if full else ("parent-partial",))
             return _one(("?", A.norm(e)))
+        if isinstance(e.func, ast.Name) and e.func.id == "filter" and len(e.args) == 2 and not e.keywords and isinstance(e.args[0], ast.Lambda):
+            # filter(lambda k: c, it) is (k for k in it if c)
+            la = e.args[0].args
+            if len(la.args) == 1 and not (la.posonlyargs or la.kwonlyargs or la.vararg or la.kwarg or la.defaults):
+                tgt = ast.Name(id=la.args[0].arg, ctx=ast.Store())
+                gen = ast.GeneratorExp(elt=ast.Name(id=la.args[0].arg, ctx=ast.Load()),
+                                       generators=[ast.comprehension(target=tgt, iter=e.args[1], ifs=[e.args[0].body], is_async=0)])
+                (s, so) = _kv(ast.copy_location(gen, e), env)
+                for t_ in s:
+                    if t_[0] == "own" and t_[2] is not None and t_[2].comp is gen:
+                        t_[2].comp = e  # where it is evaluated
+                return (s, so)
         if isinstance(e.func, ast.Name) and e.func.id in ("set", "frozenset", "list", "tuple", "sorted", "iter"):
             if not e.args:
                 return (frozenset(), e.func.id == "sorted")
@@ -609,36 +644,68 @@ def _kv(e, env):
     if isinstance(e, ast.BinOp) and isinstance(e.op, ast.BitOr):
         return (_uniq(_kv(e.left, env)[0] | _kv(e.right, env)[0]), False)
     if isinstance(e, ast.BinOp) and isinstance(e.op, ast.Add):
-        return (_joined(_kv(e.left, env)[0], _kv(e.right, env)[0]), False)
+        left = _kv(e.left, env)[0]
+        d = _new_ones_only(e.right, env, left)
+        return ((left | d) if d is not None else _joined(left, _kv(e.right, env)[0]), False)
     if isinstance(e, (ast.Set, ast.List, ast.Tuple)):
         s = frozenset()
         for x in e.elts:
             s = _joined(s, _kv(x.value, env)[0] if isinstance(x, ast.Starred) else frozenset([("?", A.norm(x))]))
         return (_uniq(s) if isinstance(e, ast.Set) else s, False)
-    if isinstance(e, (ast.ListComp, ast.SetComp, ast.GeneratorExp)) and len(e.generators) == 1 and not e.generators[0].is_async:
+    if isinstance(e, (ast.ListComp, ast.SetComp, ast.GeneratorExp, ast.DictComp)) and len(e.generators) == 1 and not e.generators[0].is_async:
         g = e.generators[0]
         keyvar = valvar = None
+        unpacked = {}
+        # what is collected: the element, or the keys of a mapping built by a dict comprehension
+        elt = e.key if isinstance(e, ast.DictComp) else e.elt
         if isinstance(g.iter, ast.Call) and A.call_attr(g.iter) == "items" and not g.iter.args and A.call_recv(g.iter) is not None \
-                and isinstance(g.target, ast.Tuple) and len(g.target.elts) == 2 and all(isinstance(x, ast.Name) for x in g.target.elts):
+                and isinstance(g.target, ast.Tuple) and len(g.target.elts) == 2 and isinstance(g.target.elts[0], ast.Name) \
+                and (isinstance(g.target.elts[1], ast.Name) or (isinstance(g.target.elts[1], (ast.Tuple, ast.List))
+                                                                 and all(isinstance(x, ast.Name) for x in g.target.elts[1].elts))):
             src = _kv(A.call_recv(g.iter), env)[0]
-            keyvar, valvar = g.target.elts[0].id, g.target.elts[1].id
+            keyvar = g.target.elts[0].id
+            if isinstance(g.target.elts[1], ast.Name):
+                valvar = g.target.elts[1].id
+            else:
+                unpacked = {x.id: i for i, x in enumerate(g.target.elts[1].elts)}
         elif isinstance(g.target, ast.Name):
             src = _kv(g.iter, env)[0]
             keyvar = g.target.id
         else:
             return _one(("?", A.norm(e)))
-        if isinstance(e, ast.SetComp):
+        if isinstance(e, (ast.SetComp, ast.DictComp)):
             src = _uniq(src)
         toks = list(src)
-        if isinstance(e.elt, ast.Name) and e.elt.id == keyvar and not g.ifs and toks and not any(t[0] == "?" for t in toks):
+        if isinstance(elt, ast.Name) and elt.id == keyvar and not g.ifs and toks and not any(t[0] == "?" for t in toks):
             return (src, False)
-        if isinstance(e.elt, ast.Name) and e.elt.id == keyvar and len(toks) == 1:
+        if isinstance(elt, ast.Name) and elt.id == keyvar and len(toks) == 1:
             if not g.ifs:
                 return (src, False)
             if toks[0][0] == "own" and toks[0][2] is None:
-                return _one(("own", toks[0][1], _Filt(g.ifs, keyvar, valvar, toks[0][1])))
+                return _one(("own", toks[0][1], _Filt(g.ifs, keyvar, valvar, toks[0][1], e, unpacked)))
         return _one(("?", A.norm(e)))
     return _one(("?", A.norm(e)))
+
+
+def _new_ones_only(arg, env, base):
+    """Sources of `arg` when it is `x for x in S if x not in Y` with Y holding exactly the keys of `base` (the
+    collection it is about to be put at the end of): what it contributes is S without the keys already there, so that
+    no key comes twice.  None for anything else."""
+    while isinstance(arg, ast.Call) and isinstance(arg.func, ast.Name) and arg.func.id in ("list", "tuple") and len(arg.args) == 1 and not arg.keywords:
+        arg = arg.args[0]
+    if not (isinstance(arg, (ast.ListComp, ast.GeneratorExp, ast.SetComp)) and len(arg.generators) == 1):
+        return None
+    g = arg.generators[0]
+    if g.is_async or not isinstance(g.target, ast.Name) or not (isinstance(arg.elt, ast.Name) and arg.elt.id == g.target.id) or len(g.ifs) != 1:
+        return None
+    t = g.ifs[0]
+    if not (isinstance(t, ast.Compare) and len(t.ops) == 1 and isinstance(t.ops[0], ast.NotIn) and isinstance(t.left, ast.Name) and t.left.id == g.target.id):
+        return None
+    have = _kv(t.comparators[0], env)[0]
+    src = _kv(g.iter, env)[0]
+    if _DUP in base or _DUP in src or any(x[0] == "?" for x in have | src) or _uniq(have) != _uniq(base) or not _uniq(base):
+        return None
+    return _uniq(src)
 
 
 _ELEM = ("elem-of-accumulating-loop",)
@@ -705,7 +772,8 @@ def _step(env, nd, value):
         if isinstance(st.op, ast.BitOr):
             env[st.target.id] = (_uniq(cur | _kv(value, env)[0]), False)
         elif isinstance(st.op, ast.Add):
-            env[st.target.id] = (_joined(cur, _kv(value, env)[0]), False)
+            d = _new_ones_only(value, env, cur)
+            env[st.target.id] = ((cur | d) if d is not None else _joined(cur, _kv(value, env)[0]), False)
         else:
             env[st.target.id] = (cur | frozenset([("?", A.norm(st))]), False)
     elif isinstance(st, ast.Expr) and isinstance(value, ast.Call) and isinstance(value.func, ast.Attribute) \
@@ -714,7 +782,8 @@ def _step(env, nd, value):
         cur, so = env[nm]
         if meth in ("update", "extend") and not c.keywords:
             for a in c.args:
-                cur = (cur | _kv(a, env)[0]) if meth == "update" else _joined(cur, _kv(a, env)[0])
+                d = _new_ones_only(a, env, cur) if meth == "extend" else None
+                cur = (cur | _kv(a, env)[0]) if meth == "update" else (cur | d) if d is not None else _joined(cur, _kv(a, env)[0])
             env[nm] = (cur, False)
         elif meth == "sort" and not c.args and not c.keywords:
             env[nm] = (cur, True)
@@ -813,9 +882,20 @@ def _shape_get(ck, R, cls):
     else an error — decided per exit of the function on the literals of the paths that reach it."""
     m = cls.methods.get("get")
     ck.need(m is not None, "%s.get not found" % cls.qual)
-    fa = PM.view(ck, m, "branches")
+    fa = PM.view(ck, m, "accessor")
     K = _param(ck, fa, 1, "the key")
     own_re = re.compile(r"^%s in self\.(\w+)(\.keys\(\))?$" % re.escape(K))
+    # `self.m.get(k, <sentinel>) is <sentinel>`: the key is NOT an own key (the sentinel is a fresh object() or a
+    # module-level name, never a value a partition can hold)
+    absent_re = re.compile(r"^self\.(\w+)\.get\(%s, (object\(\)|[A-Za-z_]\w*)\) is (object\(\)|[A-Za-z_]\w*)$" % re.escape(K))
+
+    def absent(text):
+        ma = absent_re.match(text)
+        if not ma or ma.group(2) != ma.group(3) or ma.group(2) in ("None", "True", "False"):
+            return None
+        if ma.group(2) != "object()" and (fa.df.is_local(ma.group(2)) or ma.group(2) in fa.fi.params):
+            return None
+        return ma.group(1)
     paths, falls = _exit_paths(fa)
     why = []
     if falls:
@@ -833,6 +913,9 @@ def _shape_get(ck, R, cls):
             elif mo and mo.group(1) != PARENT_ATTR:
                 own = l.pos
                 own_fields.add(mo.group(1))
+            elif absent(l.text) and absent(l.text) != PARENT_ATTR:
+                own = not l.pos
+                own_fields.add(absent(l.text))
             elif l.text == "self." + PARENT_ATTR:
                 par = l.pos
             elif l.text == "self.%s is None" % PARENT_ATTR:
@@ -905,53 +988,124 @@ def _shape_list(ck, R, cls):
           "list_keys() is not 'sorted union of parent and own keys, or sorted own keys' (%s)" % "; ".join(why[:3]), fa.where())
 
 
-def _simplify(e, name, value):
-    """Partial evaluation of a boolean expression with `name` := value -> True / False / residual expression."""
+def _bool_leaves(e, out):
+    """The atoms of a boolean expression: what is left once and / or / not / conditional expressions / bool(...) /
+    comparisons with True / False are taken apart."""
+    if isinstance(e, ast.Constant):
+        return
+    if isinstance(e, ast.UnaryOp) and isinstance(e.op, ast.Not):
+        return _bool_leaves(e.operand, out)
+    if isinstance(e, ast.BoolOp):
+        for v in e.values:
+            _bool_leaves(v, out)
+        return
+    if isinstance(e, ast.IfExp):
+        for v in (e.test, e.body, e.orelse):
+            _bool_leaves(v, out)
+        return
+    if isinstance(e, ast.Call) and isinstance(e.func, ast.Name) and e.func.id == "bool" and len(e.args) == 1 and not e.keywords:
+        return _bool_leaves(e.args[0], out)
+    if _flag_compare(e) is not None:
+        return _bool_leaves(e.left, out)
+    out.append(e)
+
+
+def _flag_compare(e):
+    """`x is True` / `x == False` / `x is not True` / `x != False` on a flag -> does it hold when x is true?  (None: another expression)"""
+    if isinstance(e, ast.Compare) and len(e.ops) == 1 and isinstance(e.comparators[0], ast.Constant) and isinstance(e.comparators[0].value, bool):
+        if isinstance(e.ops[0], (ast.Is, ast.Eq)):
+            return e.comparators[0].value
+        if isinstance(e.ops[0], (ast.IsNot, ast.NotEq)):
+            return not e.comparators[0].value
+    return None
+
+
+def _bool_value(e, val):
+    """Value of a boolean expression when its atoms take the truth values `val(atom)`."""
     if isinstance(e, ast.Constant):
         return bool(e.value)
-    if isinstance(e, ast.Name) and e.id == name:
-        return value
     if isinstance(e, ast.UnaryOp) and isinstance(e.op, ast.Not):
-        r = _simplify(e.operand, name, value)
-        return (not r) if isinstance(r, bool) else ast.UnaryOp(op=ast.Not(), operand=r)
+        return not _bool_value(e.operand, val)
     if isinstance(e, ast.BoolOp):
-        absorbing = isinstance(e.op, ast.Or)
-        rest = []
-        for v in e.values:
-            r = _simplify(v, name, value)
-            if isinstance(r, bool):
-                if r == absorbing:
-                    # a residual operand evaluated before it cannot change the outcome (filters have no effects)
-                    return absorbing
-                continue
-            rest.append(r)
-        if not rest:
-            return not absorbing
-        return rest[0] if len(rest) == 1 else ast.BoolOp(op=e.op, values=rest)
-    return e
+        vs = [_bool_value(v, val) for v in e.values]
+        return all(vs) if isinstance(e.op, ast.And) else any(vs)
+    if isinstance(e, ast.IfExp):
+        return _bool_value(e.body, val) if _bool_value(e.test, val) else _bool_value(e.orelse, val)
+    if isinstance(e, ast.Call) and isinstance(e.func, ast.Name) and e.func.id == "bool" and len(e.args) == 1 and not e.keywords:
+        return _bool_value(e.args[0], val)
+    fc = _flag_compare(e)
+    if fc is not None:
+        return _bool_value(e.left, val) == fc
+    return val(e)
 
 
-def _not_inherited(res, flt):
-    """Is `res` the test `not <entry of the key>.from_parent`?"""
-    if not (isinstance(res, ast.UnaryOp) and isinstance(res.op, ast.Not)):
-        if isinstance(res, ast.Compare) and len(res.ops) == 1 and isinstance(res.ops[0], (ast.Is, ast.Eq)) and isinstance(res.comparators[0], ast.Constant) \
-                and res.comparators[0].value is False:
-            x = res.left
-        else:
-            return False
-    else:
-        x = res.operand
-    if not (isinstance(x, ast.Attribute) and x.attr == "from_parent"):
-        return False
-    ent = x.value
-    if isinstance(ent, ast.Name):
-        return flt.valvar is not None and ent.id == flt.valvar
+def _entry_of_key(x, flt):
+    """Does `x` denote the entry the own map holds for the key at hand?  (the value variable of `.items()`,
+    `self.m[k]`, `self.m.get(k)`)"""
+    if isinstance(x, ast.Name):
+        return flt.valvar is not None and x.id == flt.valvar
     own = "self." + flt.field
-    if isinstance(ent, ast.Subscript):
-        return A.norm(ent.value) == own and A.norm(ent.slice) == flt.keyvar
-    if isinstance(ent, ast.Call) and A.call_attr(ent) == "get" and len(ent.args) == 1 and not ent.keywords:
-        return A.norm(A.call_recv(ent)) == own and A.norm(ent.args[0]) == flt.keyvar
+    if isinstance(x, ast.Subscript):
+        return A.norm(x.value) == own and A.norm(x.slice) == flt.keyvar
+    if isinstance(x, ast.Call) and A.call_attr(x) == "get" and len(x.args) == 1 and not x.keywords and A.call_recv(x) is not None:
+        return A.norm(A.call_recv(x)) == own and A.norm(x.args[0]) == flt.keyvar
     return False
+
+
+def _is_inherited_flag(x, flt, fields):
+    """Is `x` the from_parent mark of the entry of the key at hand?  (`<entry>.from_parent`, getattr(<entry>, 'from_parent'),
+    `<entry>[position of the field]`, the name the field is bound to when the entry is unpacked in the comprehension target)"""
+    pos = fields.index("from_parent") if "from_parent" in fields else None
+    if isinstance(x, ast.Attribute):
+        return x.attr == "from_parent" and _entry_of_key(x.value, flt)
+    if isinstance(x, ast.Call) and isinstance(x.func, ast.Name) and x.func.id == "getattr" and len(x.args) == 2 and not x.keywords:
+        return A.const_str(x.args[1]) == "from_parent" and _entry_of_key(x.args[0], flt)
+    if isinstance(x, ast.Subscript) and isinstance(x.slice, ast.Constant) and isinstance(x.slice.value, int) and not isinstance(x.slice.value, bool) and pos is not None:
+        return x.slice.value in (pos, pos - len(fields)) and _entry_of_key(x.value, flt)
+    if isinstance(x, ast.Name) and x.id in flt.unpacked and pos is not None:
+        return flt.unpacked[x.id] == pos and len(flt.unpacked) == len(fields)
+    return False
+
+
+def _filter_keeps(fa, flt, path, INC, inc, fields):
+    """Does the filter of a listing of the own map keep exactly the keys it should -- every key when the caller asks for
+    inherited entries too (`inc`), the keys whose entry is not marked from_parent otherwise?  Decided on the truth table
+    of the filter over its atoms (the flag, the mark, anything else it may mention: the outcome must not depend on it),
+    locals read through the values the path gave them."""
+    (t, _lits, tr) = path
+    test = flt.ifs[0] if len(flt.ifs) == 1 else ast.BoolOp(op=ast.And(), values=list(flt.ifs))
+    bound = {flt.keyvar} | ({flt.valvar} if flt.valvar else set()) | set(flt.unpacked)
+    ids = fa.nodes(flt.comp) if flt.comp is not None else []
+    try:
+        test = _on_trail(fa, test, ids[0] if ids else t, list(tr), tuple(bound))
+    except Exception:  # noqa
+        pass
+    leaves = []
+    _bool_leaves(test, leaves)
+    kinds = {}
+    for x in leaves:
+        txt = A.norm(x)
+        if isinstance(x, ast.Name) and x.id == INC:
+            kinds[txt] = "inc"
+        elif _is_inherited_flag(x, flt, fields):
+            kinds[txt] = "fp"
+        else:
+            kinds[txt] = "?"
+    free = sorted(k for k, v in kinds.items() if v == "?")
+    if len(free) > 6:
+        return False
+    import itertools
+    for fp in (True, False):
+        for other in itertools.product((True, False), repeat=len(free)):
+            table = dict(zip(free, other))
+
+            def val(x):
+                k = kinds[A.norm(x)]
+                return inc if k == "inc" else fp if k == "fp" else table[A.norm(x)]
+
+            if _bool_value(test, val) != (inc or not fp):
+                return False
+    return True
 
 
 def _stored_form_filter(ck, R):
@@ -959,6 +1113,7 @@ def _stored_form_filter(ck, R):
     not marked from_parent otherwise; sorted."""
     lk = PM.view(ck, PM.PICKLE_PARTITION + ".list_keys", "collections")
     INC = _param(ck, lk, 1, "_include_merge_parent")
+    fields = PM.entry_type_fields(ck)
     paths, falls = _exit_paths(lk)
     ok = bool(paths) and not falls
     seen = set()
@@ -976,13 +1131,10 @@ def _stored_form_filter(ck, R):
             inc = _pol(lits, INC)
             for w in ([inc] if inc is not None else [True, False]):
                 seen.add(w)
-                res = True
-                if flt is not None:
-                    res = _simplify(flt.ifs[0] if len(flt.ifs) == 1 else ast.BoolOp(op=ast.And(), values=list(flt.ifs)), INC, w)
-                if w:
-                    ok = ok and res is True
+                if flt is None:
+                    ok = ok and w  # the whole index: right only when inherited entries are asked for
                 else:
-                    ok = ok and not isinstance(res, bool) and _not_inherited(res, flt)
+                    ok = ok and _filter_keeps(lk, flt, path, INC, w, fields)
     ok = ok and seen == {True, False}
     ck.ob(R, lk.key(None, "stored-form-filter"), ok, "without parents, the stored form lists only entries not marked from_parent" if ok else
           "PicklePartition.list_keys(_include_merge_parent=False) does not filter out inherited entries: a re-stored child duplicates parent data as own", lk.where())
@@ -999,48 +1151,74 @@ def check_siblings(ck, R):
     _stored_form_filter(ck, R)
 
 
+def _texts_through_locals(fn_node, expr):
+    """Normalised text of `expr` together with the texts of what the names in it are assigned anywhere in the function
+    (nested helpers included; flow-insensitive, a few levels deep): enough to tell WHICH codec an entry field goes
+    through however many temporaries sit in between."""
+    assigned = {}
+    for n in ast.walk(fn_node):
+        if isinstance(n, (ast.Assign, ast.AnnAssign)):
+            for (t, v) in PM._flat_targets(n):
+                if isinstance(t, ast.Name) and v is not None:
+                    assigned.setdefault(t.id, []).append(v)
+    out, todo, seen = [], [expr], set()
+    for _level in range(4):
+        nxt = []
+        for e in todo:
+            out.append(A.norm(e))
+            for x in ast.walk(e):
+                if isinstance(x, ast.Name) and x.id in assigned and x.id not in seen:
+                    seen.add(x.id)
+                    nxt += assigned[x.id]
+        todo = nxt
+    return " ; ".join(out)
+
+
 def check_index_tables(ck, R):
     ck.rule(R, "index table agreement: the serialised index entry has exactly the fields the deserialiser reads and "
                "the in-memory entry type declares", 2)
     se = FA(ck, PM.PICKLE_PARTITION + "._serialize_index")
     de = FA(ck, PM.PICKLE_PARTITION + "._deserialize_index")
-    enc = set()
-    enc_values = []
-    for n in A.walk_body(se.node):
+    enc = {}
+    # the record written per entry, whichever way it is put together (nested helpers of the function included)
+    for n in ast.walk(se.node):
         if isinstance(n, ast.Dict):
             for k, v in zip(n.keys, n.values):
                 if A.const_str(k):
-                    enc.add(A.const_str(k))
-                    enc_values.append(v)
+                    enc.setdefault(A.const_str(k), []).append(v)
         elif isinstance(n, ast.Call) and isinstance(n.func, ast.Name) and n.func.id == "dict" and n.keywords and not n.args:
             # dict(result_type=..., ...)
             for k in n.keywords:
                 if k.arg:
-                    enc.add(k.arg)
-                    enc_values.append(k.value)
+                    enc.setdefault(k.arg, []).append(k.value)
         elif isinstance(n, ast.Assign) and len(n.targets) == 1 and isinstance(n.targets[0], ast.Subscript) and A.const_str(n.targets[0].slice):
             # entry["result_type"] = ...
-            enc.add(A.const_str(n.targets[0].slice))
-            enc_values.append(n.value)
+            enc.setdefault(A.const_str(n.targets[0].slice), []).append(n.value)
     dec = set()
-    # the per-entry variable: any name bound by a loop / comprehension over the decoded mapping
+    # the per-entry variable: any name bound by a loop / comprehension over the decoded mapping, or the parameter
+    # of a nested helper that decodes one entry
     ev = set()
     for n in ast.walk(de.node):
         if isinstance(n, (ast.comprehension, ast.For)):
             ev |= {x.id for x in ast.walk(n.target) if isinstance(x, ast.Name)}
-    for n in A.walk_body(de.node):
-        if isinstance(n, ast.Subscript) and A.const_str(n.slice) and A.norm(n.value) in ev:
+        if isinstance(n, (ast.FunctionDef, ast.Lambda)) and n is not de.node:
+            ev |= {a.arg for a in n.args.args + n.args.posonlyargs + n.args.kwonlyargs}
+    for n in ast.walk(de.node):
+        if isinstance(n, ast.Subscript) and isinstance(n.ctx, ast.Load) and A.const_str(n.slice) and A.norm(n.value) in ev:
             dec.add(A.const_str(n.slice))
-        if isinstance(n, ast.Call) and A.call_attr(n) == "get" and A.norm(A.call_recv(n)) in ev and n.args and A.const_str(n.args[0]):
+        if isinstance(n, ast.Call) and A.call_attr(n) == "get" and A.call_recv(n) is not None and A.norm(A.call_recv(n)) in ev and n.args and A.const_str(n.args[0]):
             dec.add(A.const_str(n.args[0]))
     fields = set(PM.entry_type_fields(ck))
-    ok = enc == dec == fields and bool(enc)
+    ok = set(enc) == dec == fields and bool(enc)
     ck.ob(R, se.key(None, "entry-fields"), ok, "index entries carry %s on both sides" % sorted(enc) if ok else
           "index entry fields differ: written %s, read %s, declared %s" % (sorted(enc), sorted(dec), sorted(fields)), se.where())
-    ctor = [c for c in de.calls("_ResultTypeAndContentKey")]
-    ef = PM.entry_fields(ctor[0], PM.entry_type_fields(ck)) if len(ctor) == 1 else None
-    okc = ef is not None and "ResultType[" in A.norm(ef["result_type"]) and "decode_versioned_data_source_key" in A.norm(ef["content_key"])
-    encn = any(".name" in A.norm(v) for v in enc_values) and "encode_versioned_data_source_key" in A.norm(se.node)
+    ctor = [PM.entry_fields(c, PM.entry_type_fields(ck)) for c in ast.walk(de.node) if isinstance(c, ast.Call) and A.call_attr(c) == PM.ENTRY_TYPE]
+    ef = ctor[0] if len(ctor) == 1 else None
+    okc = ef is not None and "ResultType[" in _texts_through_locals(de.node, ef["result_type"]) \
+        and "decode_versioned_data_source_key" in _texts_through_locals(de.node, ef["content_key"])
+    # written: the type by its name, the content key through the versioned-key codec
+    encn = bool(enc.get("result_type")) and all(".name" in _texts_through_locals(se.node, v) for v in enc.get("result_type", [])) \
+        and bool(enc.get("content_key")) and all("encode_versioned_data_source_key" in _texts_through_locals(se.node, v) for v in enc.get("content_key", []))
     ck.ob(R, de.key(None, "entry-codecs"), okc and encn, "type is written by name and read by name; keys use the versioned-key codec both ways" if okc and encn else
           "index entry encoding and decoding do not use matching codecs", de.where())
 
